@@ -1,4 +1,4 @@
-package main
+package sx
 
 import (
 	"encoding/json"
@@ -46,7 +46,7 @@ type JN struct {
 	Members []*JN
 }
 
-func (n *JN) coq(sb *strings.Builder) {
+func (n *JN) Coq(sb *strings.Builder) {
 	k := vh.CoqHex([]byte(n.Key))
 	switch n.Kind {
 	case 's':
@@ -61,12 +61,12 @@ func (n *JN) coq(sb *strings.Builder) {
 		if i > 0 {
 			sb.WriteString("; ")
 		}
-		m.coq(sb)
+		m.Coq(sb)
 	}
 	sb.WriteString("]")
 }
 
-func jtoksCoq(toks []JTok) string {
+func JToksCoq(toks []JTok) string {
 	var xs []string
 	for _, t := range toks {
 		xs = append(xs, t.coq())
@@ -74,8 +74,8 @@ func jtoksCoq(toks []JTok) string {
 	return vh.CoqList(xs)
 }
 
-// jsonTokens runs an independent json.Decoder over the text.  ok=false on a syntax error.
-func jsonTokens(text string) (toks []JTok, ok bool) {
+// JSONTokens runs an independent json.Decoder over the text.  ok=false on a syntax error.
+func JSONTokens(text string) (toks []JTok, ok bool) {
 	d := json.NewDecoder(strings.NewReader(text))
 	for {
 		tok, err := d.Token()
@@ -100,8 +100,8 @@ func jsonTokens(text string) (toks []JTok, ok bool) {
 	}
 }
 
-// jsonFromTokens rebuilds the (single) top-level value from the token stream.
-func jsonFromTokens(toks []JTok) (*JN, bool) {
+// JSONFromTokens rebuilds the (single) top-level value from the token stream.
+func JSONFromTokens(toks []JTok) (*JN, bool) {
 	pos := 0
 	var val func(key string) *JN
 	val = func(key string) *JN {
@@ -147,7 +147,7 @@ func jsonFromTokens(toks []JTok) (*JN, bool) {
 	return n, n != nil && pos == len(toks)
 }
 
-func sameJN(a, b *JN) bool {
+func SameJN(a, b *JN) bool {
 	if a.Kind != b.Kind || a.Key != b.Key || len(a.Members) != len(b.Members) {
 		return false
 	}
@@ -155,7 +155,7 @@ func sameJN(a, b *JN) bool {
 		return false
 	}
 	for i := range a.Members {
-		if !sameJN(a.Members[i], b.Members[i]) {
+		if !SameJN(a.Members[i], b.Members[i]) {
 			return false
 		}
 	}
@@ -220,7 +220,7 @@ func (g *jgen) value(key string, depth, maxDepth int) *JN {
 	return n
 }
 
-func genJSONDoc(r *vh.Rng) *JN {
+func GenJSONDoc(r *vh.Rng) *JN {
 	g := &jgen{r: r, budget: r.Between(2, 40)}
 	pool := []string{"n", "x", "r", "a", "b", "n", "x", "a b", ""}
 	for i, k := 0, r.Between(2, 5); i < k; i++ {
@@ -272,7 +272,7 @@ func writeJSON(sb *strings.Builder, r *vh.Rng, n *JN) {
 	}
 }
 
-func jsonText(r *vh.Rng, n *JN) string {
+func JSONText(r *vh.Rng, n *JN) string {
 	var sb strings.Builder
 	if r.Chance(0.1) {
 		sb.WriteString("\n")
@@ -296,8 +296,8 @@ func isXPathName(s string) bool {
 	return true
 }
 
-func jsonVocab(d *JN) *vocab {
-	v := &vocab{}
+func JSONVocab(d *JN) *Vocab {
+	v := &Vocab{}
 	seenN := map[NT]bool{}
 	seenV := map[string]bool{}
 	var walk func(n *JN, chain []NT, keyed bool)
